@@ -5,7 +5,8 @@ from . import build
 
 VERIF = build.VERIF
 LEAN_DIR = os.path.join(VERIF, "lean")
-DRV = os.path.join(LEAN_DIR, ".lake", "build", "bin", "drv")
+def drv_exe(family):
+    return os.path.join(LEAN_DIR, ".lake", "build", "bin", "drv_" + family)
 
 ASAN_ENV = {
     "ASAN_OPTIONS": "detect_leaks=1:alloc_dealloc_mismatch=1:allocator_may_return_null=1:abort_on_error=0:exitcode=99:max_allocation_size_mb=3000:detect_stack_use_after_return=0",
@@ -97,7 +98,7 @@ def run_impl(exe, lines, timeout=120, env=None, stateful=False, args=None):
 
 
 def run_model(family, lines, timeout=300):
-    o, rc, err = run_proc([DRV, family], lines, timeout)
+    o, rc, err = run_proc([drv_exe(family)], lines, timeout)
     if rc != 0 or len(o) != len(lines):
         raise RuntimeError("model driver failed for family %s: rc=%s out=%d/%d\n%s" % (family, rc, len(o), len(lines), err))
     return o
